@@ -10,7 +10,7 @@ From Verif Require Import CascadeSpec CascadeLemmas1 CascadeTerm CascadeExact Du
 Definition mirror_lk (s : state) : Prop := forall j, alookup j (st_store s) = alookup j (st_facts s).
 
 Definition goodk (s : state) (now : Z) : Prop :=
-  st_fail s = None /\ CascadeSpec.no_expired s now /\ ids_ok s /\ mirror_lk s /\ (st_kind s = Indexed -> P s).
+  st_fail s = None /\ CascadeSpec.no_expired s now /\ mirror_lk s /\ (st_kind s = Indexed -> P s).
 
 (** * The dependents are found, index or not *)
 
@@ -45,23 +45,30 @@ Proof.
     cbn [extract_terms_raw]. rewrite Hv, Hlen. left; reflexivity.
 Qed.
 
+(** the search (through the term index or not) succeeds, changes nothing, and
+    the targets that deleteDependencies keeps of what it found are exactly the
+    stored facts that name [x] literally — for ANY [x]: for a variable-looking
+    one the pattern's only term is "deleteWith" and the variable matches every
+    element ([dw_names_hit]) *)
 Lemma search_state_pure2 s x now :
-  CascadeSpec.no_expired s now -> is_var x = false -> (st_kind s = Indexed -> P s) ->
+  CascadeSpec.no_expired s now -> (st_kind s = Indexed -> P s) ->
   exists found,
     search_state s (dw_pattern x) now = (s, Ok found) /\
-    forall j, In j (map fst found) <->
-              exists fact, alookup j (st_facts s) = Some fact /\ dw_hit x fact = true.
+    forall j, In j (dw_targets s x (map fst found)) <->
+              exists fact, alookup j (st_facts s) = Some fact /\ dw_names fact x = true.
 Proof.
-  intros Hne Hx HP. destruct (st_kind s) eqn:Hk; [|apply search_state_pure; assumption].
+  intros Hne HP. destruct (st_kind s) eqn:Hk.
+  2:{ destruct (search_state_pure s x now Hk Hne) as (found & Hs & Hfound).
+      exists found. split; [exact Hs|]. apply targets_exact. exact Hfound. }
   destruct (HP eq_refl) as (_ & _ & Hsup).
   unfold search_state. rewrite Hk.
   destruct (ti_search_spec (st_tindex s) (extract_terms (dw_pattern x)) (dw_terms_nonempty x)) as (ids & Hs & Hids).
   rewrite Hs. rewrite search_ids_pure by exact Hne. eexists. split; [reflexivity|].
-  intros j. cbn [rev app]. rewrite pure_hits_In. split.
+  intros j. rewrite dw_targets_In. cbn [rev app]. rewrite pure_hits_In. split.
   - intros [_ H]. exact H.
-  - intros (f & H1 & H2). split; [|eauto].
+  - intros (f & H1 & H2). split; [|eauto]. split; [|exists f; split; [exact H1|apply dw_names_hit; exact H2]].
     apply Hids. intros t Ht. apply (Hsup j f t H1).
-    eapply dw_names_terms; [|exact Ht]. rewrite <- dw_hit_names by exact Hx. exact H2.
+    eapply dw_names_terms; [exact H2|exact Ht].
 Qed.
 
 (** * Exactly the closure, both kinds *)
@@ -69,11 +76,9 @@ Qed.
 Lemma Rm_goodk s D s' now :
   goodk s now -> Rm s D s' -> (st_kind s' = Indexed -> P s') -> goodk s' now.
 Proof.
-  intros (Hf & Hne & Hok & Hm & _) HR HP'. pose proof HR as (Hk' & Hf' & HF & HS).
-  split; [congruence|]. split; [|split; [|split; [|exact HP']]].
+  intros (Hf & Hne & Hm & _) HR HP'. pose proof HR as (Hk' & Hf' & HF & HS).
+  split; [congruence|]. split; [|split; [|exact HP']].
   - intros j f Hj. eapply Hne. eapply Rm_sub; eauto.
-  - intros j Hj. apply Hok. destruct (alookup j (st_facts s')) as [f|] eqn:E; [|congruence].
-    rewrite (Rm_sub _ _ _ _ _ HR E). discriminate.
   - intros j. rewrite HF, HS. destruct (mem_str j D); [reflexivity|apply Hm].
 Qed.
 
@@ -82,7 +87,7 @@ Lemma Rm_head s x now :
   snd (rem_head s x) = true /\ Rm s [x] (fst (rem_head s x)) /\
   (st_kind s = Indexed -> P (fst (rem_head s x))).
 Proof.
-  intros (Hf & Hne & Hok & Hm & HP). unfold rem_head. destruct (st_kind s) eqn:Hk.
+  intros (Hf & Hne & Hm & HP). unfold rem_head. destruct (st_kind s) eqn:Hk.
   - destruct (alookup x (st_facts s)) as [fact|] eqn:El.
     + destruct (idx_drop_fields s x fact) as (F1 & F2 & F3 & F4 & F5 & F6 & F7 & F8).
       pose proof (facts_idx_drop s x fact) as F0.
@@ -106,39 +111,36 @@ Qed.
 Section ExactGen2.
   Variable rem_rec : state -> string -> Z -> state * outcome bool.
   Variable now : Z.
-  Hypothesis Hspec : forall s j s' had, goodk s now -> is_var j = false ->
+  Hypothesis Hspec : forall s j s' had, goodk s now ->
     rem_rec s j now = (s', Ok had) -> Post s j s' had.
   Hypothesis HrecP : forall s j, P s -> P (fst (rem_rec s j now)).
 
   Lemma rem_list_exact2 s0 skip : forall ids sc Dacc s',
-    goodk sc now -> Rm s0 Dacc sc -> (forall j, In j ids -> id_ok j) ->
+    goodk sc now -> Rm s0 Dacc sc ->
     rem_list rem_rec sc ids skip now = (s', Ok tt) ->
     exists D', Rm s0 (Dacc ++ D') s' /\
-      (forall j, In j ids -> j <> skip -> In j D') /\
+      (forall j, In j ids -> skipped skip j = false -> In j D') /\
       (forall d, In d D' -> exists j, In j ids /\ Clo s0 j d) /\
       (forall y j fact, In y D' -> alookup j (st_facts s0) = Some fact ->
                         dw_names fact y = true -> In j (Dacc ++ D')).
   Proof.
-    induction ids as [|j ids IH]; intros sc Dacc s' Hg HR Hnv Hrl; cbn [rem_list] in Hrl.
+    induction ids as [|j ids IH]; intros sc Dacc s' Hg HR Hrl; cbn [rem_list] in Hrl.
     - inversion Hrl; subst s'. exists []. rewrite app_nil_r.
       split; [exact HR|]. repeat split; intros; cbn [In] in *; contradiction.
-    - assert (Hnv' : forall j0, In j0 ids -> id_ok j0) by (intros; apply Hnv; right; auto).
-      destruct (String.eqb j skip) eqn:Ej.
-      + apply String.eqb_eq in Ej. subst skip.
-        destruct (IH sc Dacc s' Hg HR Hnv' Hrl) as (D' & H1 & H2 & H3 & H4).
+    - destruct (skipped skip j) eqn:Ej.
+      + destruct (IH sc Dacc s' Hg HR Hrl) as (D' & H1 & H2 & H3 & H4).
         exists D'. split; [exact H1|]. repeat split; auto.
         * intros j0 [Hj0|Hj0] Hne; [congruence|auto].
         * intros d Hd. destruct (H3 d Hd) as (j0 & Hj0 & Hc). exists j0. split; [right|]; auto.
       + destruct (rem_rec sc j now) as [s1 o] eqn:Er.
         destruct o as [b| | |]; try discriminate.
-        assert (Hvj : is_var j = false) by (apply Hnv; left; auto).
-        destruct (Hspec sc j s1 b Hg Hvj Er) as (_ & Dj & Hj1 & Hj2 & Hj3 & Hj4).
+        destruct (Hspec sc j s1 b Hg Er) as (_ & Dj & Hj1 & Hj2 & Hj3 & Hj4).
         assert (Hg1 : goodk s1 now).
         { eapply Rm_goodk; [exact Hg|exact Hj4|]. intros Hk1.
           pose proof (HrecP sc j) as HPj. rewrite Er in HPj. cbn [fst] in HPj. apply HPj.
-          destruct Hg as (_ & _ & _ & _ & HPsc). apply HPsc. destruct Hj4 as (Hk & _). congruence. }
+          destruct Hg as (_ & _ & _ & HPsc). apply HPsc. destruct Hj4 as (Hk & _). congruence. }
         assert (HR1 : Rm s0 (Dacc ++ Dj) s1) by (eapply Rm_trans; eauto).
-        destruct (IH s1 (Dacc ++ Dj)%list s' Hg1 HR1 Hnv' Hrl) as (D'' & H1 & H2 & H3 & H4).
+        destruct (IH s1 (Dacc ++ Dj)%list s' Hg1 HR1 Hrl) as (D'' & H1 & H2 & H3 & H4).
         exists (Dj ++ D'')%list. rewrite app_assoc. split; [exact H1|]. repeat split; auto.
         * intros j0 [Hj0|Hj0] Hne; apply in_or_app; [left; subst; auto|right; auto].
         * intros d Hd. apply in_app_or in Hd. destruct Hd as [Hd|Hd].
@@ -154,31 +156,28 @@ Section ExactGen2.
   Qed.
 
   Lemma rem_body_exact2 s x s' had :
-    goodk s now -> is_var x = false ->
+    goodk s now ->
     rem_body rem_rec s x now = (s', Ok had) -> Post s x s' had.
   Proof.
-    intros Hg Hx Hb. rewrite rem_body_head in Hb.
+    intros Hg Hb. rewrite rem_body_head in Hb.
     destruct (Rm_head s x now Hg) as (Hcont & HR3 & HP3). rewrite Hcont in Hb.
     set (s3 := fst (rem_head s x)) in *.
     assert (Hk3 : st_kind s3 = st_kind s) by apply HR3.
     assert (Hg3 : goodk s3 now).
     { eapply Rm_goodk; [exact Hg|exact HR3|]. intros H. apply HP3. congruence. }
-    pose proof Hg3 as (Hf3 & Hne3 & Hok3 & Hm3 & HPk3).
+    pose proof Hg3 as (Hf3 & Hne3 & Hm3 & HPk3).
     unfold delete_dependencies in Hb.
-    destruct (search_state_pure2 s3 x now Hne3 Hx HPk3) as (found & Hsearch & Hfound).
+    destruct (search_state_pure2 s3 x now Hne3 HPk3) as (found & Hsearch & Hfound).
     rewrite Hsearch in Hb.
-    set (skip := match st_kind s3 with Linear => x | Indexed => String (Ascii.ascii_of_nat 0) "never" end) in *.
-    destruct (rem_list rem_rec s3 (map fst found) skip now) as [s6 o] eqn:Erl.
+    set (skip := match st_kind s3 with Linear => Some x | Indexed => None end) in *.
+    destruct (rem_list rem_rec s3 (dw_targets s3 x (map fst found)) skip now) as [s6 o] eqn:Erl.
     destruct o as [[]| | |]; cbn [wrapb] in Hb; try discriminate.
     inversion Hb; subst s6 had. clear Hb.
-    assert (Hfound_ok : forall j, In j (map fst found) -> id_ok j).
-    { intros j Hj. apply Hfound in Hj. destruct Hj as (f & Hp & _). apply Hok3. congruence. }
-    destruct (rem_list_exact2 s skip (map fst found) s3 [x] s' Hg3 HR3 Hfound_ok Erl) as (D' & R1 & R2 & R3 & R4).
+    destruct (rem_list_exact2 s skip _ s3 [x] s' Hg3 HR3 Erl) as (D' & R1 & R2 & R3 & R4).
     split; [reflexivity|].
     change ([x] ++ D')%list with (x :: D') in *. exists (x :: D').
-    assert (Hfound_clo : forall j, In j (map fst found) -> Clo s x j).
+    assert (Hfound_clo : forall j, In j (dw_targets s3 x (map fst found)) -> Clo s x j).
     { intros j Hj. apply Hfound in Hj. destruct Hj as (f & Hp & Hh).
-      rewrite dw_hit_names in Hh by exact Hx.
       eapply Clo_dep; [apply Clo_root| |exact Hh]. exact (Rm_sub _ _ _ _ _ HR3 Hp). }
     split; [left; reflexivity|]. split; [|split; [|exact R1]].
     - intros d [Hd|Hd]; [subst; constructor|].
@@ -187,22 +186,19 @@ Section ExactGen2.
       subst y. destruct (String.eqb j x) eqn:Ej.
       + apply String.eqb_eq in Ej. subst j. left; reflexivity.
       + right.
-        assert (Hjf : In j (map fst found)).
-        { apply Hfound. exists fact. split.
-          - destruct HR3 as (_ & _ & HF & _). rewrite HF. cbn [mem_str]. rewrite Ej. exact Hp.
-          - rewrite dw_hit_names by exact Hx. exact Hn. }
+        assert (Hjf : In j (dw_targets s3 x (map fst found))).
+        { apply Hfound. exists fact. split; [|exact Hn].
+          destruct HR3 as (_ & _ & HF & _). rewrite HF. cbn [mem_str]. rewrite Ej. exact Hp. }
         apply R2; [exact Hjf|].
-        unfold skip. destruct (st_kind s3).
-        * destruct (Hfound_ok j Hjf) as [_ Hns]. exact Hns.
-        * apply String.eqb_neq. exact Ej.
+        unfold skip. destruct (st_kind s3); cbn [skipped]; [reflexivity|exact Ej].
   Qed.
 End ExactGen2.
 
 Lemma rem_fuel_exact2 now : forall fuel s x s' had,
-  goodk s now -> is_var x = false ->
+  goodk s now ->
   rem_fuel fuel s x now = (s', Ok had) -> Post s x s' had.
 Proof.
-  induction fuel as [|f IH]; intros s x s' had Hg Hx H; cbn [rem_fuel] in H.
+  induction fuel as [|f IH]; intros s x s' had Hg H; cbn [rem_fuel] in H.
   - discriminate.
   - eapply rem_body_exact2; eauto. intros s0 j HP. apply rem_fuel_P. exact HP.
 Qed.
